@@ -335,6 +335,30 @@ Section Short.
     end.
 End Short.
 
+(* ---------------------------------------------------------------- the loader's comment filter *)
+(* comment.go FilterAny / FilterArray / FilterList with RemoveCommentsFilter, run by
+   LoadExpressions over every loaded form: a comment written inside a form (the reader keeps it
+   as a *SexpComment element) is removed from lists and arrays at any depth -- whatever the head
+   of the list is; hashes are returned as they are (FilterHash).  A comment is the opaque value
+   [VOpq comment_code]. *)
+Definition comment_code : Z := -1.
+Definition is_comment (v : value) : bool :=
+  match v with VOpq z => Z.eqb z comment_code | _ => false end.
+
+Fixpoint strip (v : value) : value :=
+  match v with
+  | VList l => VList (flat_map (fun x => if is_comment x then [] else [strip x]) l)
+  | VArr l => VArr (flat_map (fun x => if is_comment x then [] else [strip x]) l)
+  | _ => v
+  end.
+
+(* no comment element in any list or array (hashes are not entered, as in the filter) *)
+Fixpoint clean (v : value) : bool :=
+  match v with
+  | VList l | VArr l => forallb (fun x => negb (is_comment x) && clean x) l
+  | _ => true
+  end.
+
 (* ---------------------------------------------------------------- macros *)
 (* A macro whose body is a template: (defmac name [p1 .. pn] ^body). *)
 Record macro := { m_params : list Z; m_body : tmpl }.
@@ -362,9 +386,13 @@ Definition duplicate (st : cstate) : cstate :=
 Section Macro.
   (* evaluation of an unquoted expression in a scope chain (abstract but for symbols) *)
   Variable eval_in : scope -> value -> option value.
-  (* the rest of the code generator (not modelled): code for a form, or a compile error *)
-  Variable generate : value -> option (list Z).
-  Variable other_call : Z -> list value -> option (list Z).
+  (* the rest of the code generator (not modelled): code for a form, or a compile error, in a
+     generator context [gctx] = everything the Generator object carries at the call site
+     (scopes to leave for break/continue/tail jumps, Tail, funcname, knownFunctions, the loop
+     being compiled ..) *)
+  Variable gctx : Type.
+  Variable generate : gctx -> value -> option (list Z).
+  Variable other_call : gctx -> Z -> list value -> option (list Z).
 
   (* Apply(macro, args) in the duplicate: parameters bound to the UNEVALUATED argument forms
      in a function scope above the global scope, then the body's template code runs on the
@@ -379,16 +407,18 @@ Section Macro.
     else None.
 
   (* generator.go GenerateCallBySymbol, macro branch: returns the caller state (untouched:
-     the expansion ran in the duplicate) and the code *)
-  Definition gen_call (macros : Z -> option macro) (st : cstate) (sym : Z) (args : list value)
+     the expansion ran in the duplicate) and the code.  The macro body is RUN at every call
+     (nothing is remembered from earlier calls) against the caller's current global scope, and
+     the expansion is handed to the SAME generator (gen.Generate(expr)): same context. *)
+  Definition gen_call (macros : Z -> option macro) (ctx : gctx) (st : cstate) (sym : Z) (args : list value)
     : cstate * option (list Z) :=
     match macros sym with
     | Some m =>
         match expand_in (duplicate st) m args with
-        | Some e => (st, generate e)
+        | Some e => (st, generate ctx e)
         | None => (st, None)
         end
-    | None => (st, other_call sym args)
+    | None => (st, other_call ctx sym args)
     end.
 End Macro.
 
